@@ -60,3 +60,24 @@ package mount
 //@   ensures result == b && len(b.Mounts) == len(old(b.Mounts)) + 1
 //@   ensures b.Mounts[len(b.Mounts) - 1].FsType == "proc" && b.Mounts[len(b.Mounts) - 1].Flags & 14 == 14
 //@   ensures !canWrite <==> b.Mounts[len(b.Mounts) - 1].Flags & 1 == 1
+
+// ToSyscall / Build: the raw parameters handed to the child's mount loop are the configured mount, field by
+// field (cstr = the C string a *byte points at); no data pointer for an empty Data string
+//@ func pkg/mount.pathPrefix
+//@   trusted "all prefixes of the path ending at a slash, then the path itself (string slicing only)"
+//@   pure
+//@   ensures len(result) >= 1
+//@ func pkg/mount.arrayPtrFromStrings props C05
+//@   arith int
+//@   assigns nothing
+//@   ensures result.1 == nil ==> len(result.0) == len(str)
+//@   loop 0: invariant -1 <= rangeindex && rangeindex < len(str) && len(bytes) == rangeindex + 1 && cap(bytes) == len(str) && (fresh(bytes) || cap(bytes) == 0)
+//@ func pkg/mount.(*Mount).ToSyscall props C05
+//@   arith int
+//@   requires m != nil
+//@   assigns nothing
+//@   ensures result.1 == nil ==> result.0 != nil && fresh(result.0) && result.0.Flags == m.Flags && !result.0.MakeNod
+//@   ensures result.1 == nil ==> cstr(result.0.Source) == m.Source && cstr(result.0.Target) == m.Target && cstr(result.0.FsType) == m.FsType
+//@   ensures result.1 == nil && len(m.Data) == 0 ==> result.0.Data == nil
+//@   ensures result.1 == nil && len(m.Data) != 0 ==> result.0.Data != nil && cstr(result.0.Data) == m.Data
+//@   ensures result.1 == nil ==> len(result.0.Prefixes) >= 1
